@@ -177,9 +177,18 @@ def parse_kani_output(out, r):
     else:
         r.status = 'ERROR'
     # concrete playback values
-    m = re.search(r'Concrete playback unit test for `[^`]*`:\n```\n(.*?)```', out, re.S)
-    if m:
+    # (Kani prints one test per failed check AND per satisfied cover: take the first one that belongs to a failed check)
+    blocks = re.findall(r'Concrete playback unit test for `[^`]*`:\n```\n(.*?)```', out, re.S)
+    pick = None
+    for blk in blocks:
+        if re.search(r'Check for `(?!cover)', blk):
+            pick = blk
+            break
+    if pick is None and blocks and not any('Check for `' in b for b in blocks):
+        pick = blocks[0]
+    if pick is not None:
         vals = []
-        for mm in re.finditer(r'//\s*(.+)\n\s*vec!\[([^\]]*)\]', m.group(1)):
+        for mm in re.finditer(r'//\s*(.+)\n\s*vec!\[([^\]]*)\]', pick):
             vals.append({"value": mm.group(1).strip(), "bytes": mm.group(2).strip()})
-        r.cex = {"playback_values_in_order_of_kani_any_calls": vals}
+        chk = re.search(r'Check for `[^`]*`: "*([^"\n]*)', pick)
+        r.cex = {"playback_values_in_order_of_kani_any_calls": vals, "for_check": chk.group(1) if chk else None}
